@@ -17,6 +17,7 @@ RULE = (
     "dictionary-based reference model in /verif (ordered field list, type and value provenance first/last wins, "
     "originals' deep observations unchanged). Non-trivial = >=2 records sharing >=1 field name, or >=2 datetime "
     "fields; distinct by case digest."
+    " Also: assignments to the copy / the original after a grouped _replace, records that already look expanded (datetime ts, string ts_description first), Python-keyword field names."
 )
 ASSUMPTIONS = [
     "metadata fields of composed records are not constrained beyond what the statement says (non-metadata fields)",
